@@ -26,6 +26,7 @@ func checkC14(p *Prog, r *Report) {
 	rClose := r.Rule("close-after-join-before-wait", "the output writer is closed after the readers are joined and before Wait, and nowhere else except on a failed Start")
 	rErr := r.Rule("exit-status-returned", "Wait's error is what Go returns")
 	rIn := r.Rule("stdin-unchanged", "SetInput stores its reader into cmd.Stdin unchanged")
+	checkC14Wrappers(p, r, r.Rule("wrappers-pass-through", "a reader which the implant's own code puts between the transport and the command (a counter, a meter) hands on exactly what its inner Read returned: data which arrives together with the end of the stream is not dropped"))
 
 	/* The output writer is the *io.PipeWriter CmdShell holds (directly or in
 	a struct of its own); whatever it is called. */
@@ -786,4 +787,84 @@ func unwrapPassThroughWriter(p *Prog, v ssa.Value) ssa.Value {
 		v = held
 	}
 	return v
+}
+
+// checkC14Wrappers: in lib/simpleshell and the command built on it, every
+// method Read(p []byte) (int, error) which calls the Read of something it
+// wraps, with its own p, returns on every path that call's count and error
+// themselves.  (io.Reader allows n > 0 together with io.EOF; a wrapper which
+// returns 0 when the error is set loses the last bytes.)
+func checkC14Wrappers(p *Prog, r *Report, ru *Rule) {
+	n := 0
+	for _, fn := range p.Funcs() {
+		if nil == fn.Pkg || !strings.Contains(fn.Pkg.Pkg.Path(), "/"+sshPkg) || "Read" != fn.Name() || nil == fn.Signature.Recv() || 2 != len(fn.Params) || 2 != fn.Signature.Results().Len() {
+			continue
+		}
+		var inner []*ssa.Call
+		eachInstr(fn, func(i ssa.Instruction) {
+			c, ok := i.(*ssa.Call)
+			if !ok {
+				return
+			}
+			/* The buffer argument: the only one of an interface call, the
+			second (after the receiver) of a static one. */
+			var buf ssa.Value
+			switch {
+			case c.Common().IsInvoke() && "Read" == c.Common().Method.Name() && 1 == len(c.Common().Args):
+				buf = c.Common().Args[0]
+			case !c.Common().IsInvoke() && strings.HasSuffix(calleeName(c.Common()), ").Read") && 2 == len(c.Common().Args):
+				buf = c.Common().Args[1]
+			default:
+				return
+			}
+			if resolveCell(buf) == ssa.Value(fn.Params[1]) {
+				inner = append(inner, c)
+			}
+		})
+		if 1 != len(inner) {
+			continue
+		}
+		n++
+		c := fnName(fn)
+		bad := false
+		eachInstr(fn, func(i ssa.Instruction) {
+			ret, ok := i.(*ssa.Return)
+			if !ok || 2 != len(ret.Results) || (nil != fn.Recover && ret.Block() == fn.Recover) {
+				return
+			}
+			for k := 0; k < 2; k++ {
+				for _, l := range phiLeaves(ret.Results[k]) {
+					ex, isEx := l.V.(*ssa.Extract)
+					if isEx && ex.Tuple == ssa.Value(inner[0]) && ex.Index == k {
+						continue
+					}
+					/* Returning a nil error where the inner error is known
+					to be nil is the same thing. */
+					if 1 == k && isNilConst(l.V) {
+						errV := extractOf(inner[0], 1)
+						okNil := false
+						if nil != errV {
+							for _, t := range nilTestsOf(fn, errV) {
+								if edgeDominates(t.If, t.NilSucc, ret) {
+									okNil = true
+								}
+							}
+						}
+						if okNil {
+							continue
+						}
+					}
+					bad = true
+				}
+			}
+		})
+		if bad {
+			ru.Bad(c, fn.Pos(), "%s wraps another reader but does not return that reader's count and error as they are on every path (a count of 0 when the error is set, say): bytes which arrive together with the end of the stream never reach the command", fnName(fn))
+		} else {
+			ru.OK(c, fn.Pos(), "returns the inner Read's count and error unchanged")
+		}
+	}
+	if 0 == n {
+		ru.OK("simpleshell:no-wrapping-readers", token.NoPos, "no reader of the implant wraps another")
+	}
 }
